@@ -1,11 +1,13 @@
 import string
 
+from flamapy.core.models.ast import AST
 from flamapy.core.transformations import ModelToText
 from flamapy.metamodels.fm_metamodel.models import (
     FeatureModel,
     Feature,
     Constraint
 )
+from flamapy.metamodels.fm_metamodel.models.feature_model import expand_xor_and_equivalence
 
 TAB = '\t'
 
@@ -71,7 +73,8 @@ def add_constraints(constraints: list[Constraint]) -> list[str]:
     index = 1
     indentation = TAB
     for ctc in constraints:
-        cnf_clauses = ctc.ast.get_clauses()
+        # XOR and EQUIVALENCE are expanded first (the core CNF conversion mishandles them)
+        cnf_clauses = AST(expand_xor_and_equivalence(ctc.ast.root)).get_clauses()
         for clause in cnf_clauses:
             clause_list_str = [
                 '~' + safename(t[1:]) if t.startswith('-')
